@@ -91,4 +91,60 @@ theorem obs_depends_on_shared_only (ps : List Param) (w w' : World) (shared : Na
     obs ps w' op = obs ps w op := by
   cases op <;> simp only [obs, absOf] <;> simp_all
 
+
+/-! ### standalone elements -/
+
+/-- the const operations that involve a ContiguousElement and have an effect at all: copying a const element (plain and
+    allocator-extended) and constructing an element from a const reference; `d` is the calling thread's private slot -/
+inductive ConstEOp
+  | copyElem (a d : Nat) | copyElemAlloc (a d alloc : Nat) | fromConstRef (d s i alloc : Nat)
+  deriving DecidableEq, Repr
+
+def estep (ps : List Param) (ew : EWorld) : ConstEOp → EWorld
+  | .copyElem a d => ew.elemCopy ps a d
+  | .copyElemAlloc a d al => ew.elemCopyA ps a d al
+  | .fromConstRef d s i al => ew.elemFromRef ps d s i al false
+
+def ConstEOp.target : ConstEOp → Nat
+  | .copyElem _ d => d | .copyElemAlloc _ d _ => d | .fromConstRef d _ _ _ => d
+
+/-- no const element operation changes a shared element (in particular its source: a copy never moves from it) or any
+    vector -/
+theorem elem_const_no_write (ps : List Param) (ew : EWorld) (shared : Nat → Bool) (op : ConstEOp)
+    (hp : shared op.target = false) :
+    (∀ k, shared k = true → (estep ps ew op).elems k = ew.elems k) ∧ (estep ps ew op).w.vecs = ew.w.vecs := by
+  have hne : ∀ k, shared k = true → k ≠ op.target := by
+    intro k hk h; rw [h, hp] at hk; exact absurd hk (by simp)
+  cases op with
+  | copyElem a d =>
+    have hd : ∀ k, shared k = true → k ≠ d := hne
+    simp only [estep, EWorld.elemCopy]
+    repeat' (first | exact ⟨fun _ _ => rfl, rfl⟩ | split)
+    exact ⟨fun k hk => by simp [EWorld.setE, hd k hk], rfl⟩
+  | copyElemAlloc a d al =>
+    have hd : ∀ k, shared k = true → k ≠ d := hne
+    simp only [estep, EWorld.elemCopyA]
+    repeat' (first | exact ⟨fun _ _ => rfl, rfl⟩ | split)
+    exact ⟨fun k hk => by simp [EWorld.setE, hd k hk], rfl⟩
+  | fromConstRef d s i al =>
+    have hd : ∀ k, shared k = true → k ≠ d := hne
+    simp only [estep, EWorld.elemFromRef, Bool.false_eq_true, if_false]
+    repeat' (first | exact ⟨fun _ _ => rfl, rfl⟩ | split)
+    exact ⟨fun k hk => by simp [EWorld.setE, hd k hk], rfl⟩
+
+/-- the shared elements and all vectors are invariant under any schedule of const element operations -/
+theorem elem_schedule_keeps_shared (ps : List Param) (shared : Nat → Bool) :
+    ∀ (sched : List (Nat × ConstEOp)) (ew : EWorld), (∀ x ∈ sched, shared x.2.target = false) →
+      (∀ k, shared k = true → (sched.foldl (fun ew x => estep ps ew x.2) ew).elems k = ew.elems k) ∧
+      (sched.foldl (fun ew x => estep ps ew x.2) ew).w.vecs = ew.w.vecs := by
+  intro sched
+  induction sched with
+  | nil => intro ew _; exact ⟨fun _ _ => rfl, rfl⟩
+  | cons x xs ih =>
+    intro ew hp
+    simp only [List.foldl_cons]
+    obtain ⟨h1, h2⟩ := ih (estep ps ew x.2) (fun y hy => hp y (by simp [hy]))
+    obtain ⟨g1, g2⟩ := elem_const_no_write ps ew shared x.2 (hp x (by simp))
+    exact ⟨fun k hk => by rw [h1 k hk, g1 k hk], by rw [h2, g2]⟩
+
 end Cntgs.C19
